@@ -463,7 +463,8 @@ def one_sinks(sio, spec, opts):
         return {"build": "err:" + type(e).__name__}
     rec["build"] = "ok"
     for method, level in opts["configs"]:
-        for sink in ("dumps", "str", "path", "file"):
+        # "file_ab": a file object opened for appending (empty file); "writeonly": an object that only has write()
+        for sink in ("dumps", "str", "path", "file", "file_ab", "writeonly"):
             key = f"{sink}/{method}/{level}"
             kw = {"compression": method, "compresslevel": level}
             f = scratch / f"a_{os.getpid()}.skops"
@@ -476,10 +477,25 @@ def one_sinks(sio, spec, opts):
                 elif sink == "path":
                     sio.dump(obj, f, **kw)
                     data = f.read_bytes()
-                else:
+                elif sink == "file":
                     with open(f, "wb") as fh:
                         sio.dump(obj, fh, **kw)
                     data = f.read_bytes()
+                elif sink == "file_ab":
+                    with open(f, "ab") as fh:
+                        sio.dump(obj, fh, **kw)
+                    data = f.read_bytes()
+                else:
+                    class WriteOnly:
+                        def __init__(self):
+                            self.chunks = []
+
+                        def write(self, b):
+                            self.chunks.append(bytes(b))
+                            return len(b)
+                    wo = WriteOnly()
+                    sio.dump(obj, wo, **kw)
+                    data = b"".join(wo.chunks)
             except BaseException as e:  # noqa
                 rec["variants"][key] = {"dump": "err:" + (PE.exc_enum(e) if isinstance(e, Exception) else "BASEEXC")}
                 continue
@@ -494,7 +510,7 @@ def one_sinks(sio, spec, opts):
                 rec["variants"][key] = v
                 continue
             try:
-                if sink in ("dumps", "file"):
+                if sink in ("dumps", "file", "file_ab", "writeonly"):
                     o2 = sio.loads(data, trusted=sio.get_untrusted_types(data=data))
                 else:
                     f.write_bytes(data)
